@@ -270,3 +270,89 @@ PROPS["C14"] = dict(
     assumptions=RG_ASSUME,
     trusted=["bitmap_rg.c rely/guarantee encoding (ghost ownership mask)"],
 )
+
+
+# ------------------------------------------------------------------------------------------------
+# arena layer (arena_layer.c)
+ARENA_STUBS = ["os.c boundary: _mi_os_commit_ex may refuse on every call; _mi_os_purge(_ex) records the blocks and asserts they hold no live data and are claimed by the purger; _mi_os_alloc*/free recording stubs",
+               "clock: arbitrary non-decreasing milliseconds; options purge_delay in [-1,1000], arena_purge_mult in [1,20] and the others symbolic",
+               "arena state: 1-2 arenas of NB=8 blocks in one bitmap field, symbolic in-use/dirty/committed/purge bits with invariant purge & inuse == 0, left-over bits blocked",
+               "claim search _mi_bitmap_try_find_from_claim_across replaced by its contract (decided under C14 with rely/guarantee) where stated"]
+FIND_REPL = {"_mi_bitmap_try_find_from_claim_across": "stub_find_from_claim_across"}
+
+
+def ar_ob(id, entry, **kw):
+    kw.setdefault("unwind", 10)
+    kw.setdefault("timeout", 900)
+    kw.setdefault("native_replay", False)
+    kw.setdefault("std_checks", False)    # arena areas are plain addresses (never dereferenced)
+    return O(id, "arena_layer.c", entry, **kw)
+
+
+PURGE_UNW = ["mi_arena_try_purge.2:66", "mi_arena_try_purge.0:10", "mi_arena_try_purge.1:10", "mi_arena_try_purge.3:3",
+             "mi_arena_purge_range.0:10", "mi_arena_purge_range.1:10"]     # NB=8 blocks: runs of at most 8 bits; 64 bit positions
+
+
+PURGE_UNW70 = ["mi_arena_try_purge.2:70", "mi_arena_try_purge.0:70", "mi_arena_try_purge.1:70", "mi_arena_try_purge.3:3",
+               "mi_arena_purge_range.0:70", "mi_arena_purge_range.1:70"]     # concrete purge words: the bit loops unwind concretely
+
+
+def arena_expiry_ob(prefix):
+    return [ar_ob(prefix + ".arenas_expiry.p%x_%x" % (p0, p1), "h_arenas_expiry", defines=["P0=0x%xul" % p0, "P1=0x%xul" % p1, "I0=0x%xul" % i0, "I1=0x%xul" % i1], unwind=4, unwindset=PURGE_UNW70, std_checks=False, cost=100,
+                 funcs=EXP_FUNCS, bounds="2 arenas x 8 blocks, pending purge patterns %x/%x, concrete in-use patterns (committed, dirty, live bits symbolic), any expiries and clock, forced and non-forced collect" % (p0, p1))
+            for (p0, p1, i0, i1) in ((0x16, 0x0, 0x81, 0xff), (0x0, 0x6, 0x0, 0x90), (0x16, 0x61, 0x0, 0x0), (0x80, 0x3, 0x7f, 0xfc))]
+
+
+EXP_FUNCS = ["_mi_arenas_collect", "mi_arenas_try_purge", "mi_arena_try_purge", "mi_arena_purge_range", "mi_arena_purge", "_mi_bitmap_try_claim", "_mi_bitmap_unclaim", "_mi_bitmap_unclaim_across", "_mi_bitmap_is_claimed_across"]
+
+
+def arena_expiry_ob_unused(prefix):
+    return ar_ob(prefix + ".arenas_expiry", "h_arenas_expiry", unwind=4, unwindset=PURGE_UNW, std_checks=False, cost=200,
+                 funcs=["_mi_arenas_collect", "mi_arenas_try_purge", "mi_arena_try_purge", "mi_arena_purge_range", "mi_arena_purge", "_mi_bitmap_try_claim", "_mi_bitmap_unclaim", "_mi_bitmap_unclaim_across", "_mi_bitmap_is_claimed_across"],
+                 bounds="2 arenas x 8 blocks, any pending purge bits and expiries, any clock, forced and non-forced collect")
+
+
+def arena_free_ob(prefix):
+    return ar_ob(prefix + ".arena_free", "h_arena_free", unwind=4, std_checks=False, cost=200, replace={"mi_arenas_try_purge": "stub_arenas_try_purge"},
+                 funcs=["_mi_arena_free", "mi_arena_schedule_purge", "mi_arena_purge", "mi_arenas_try_purge", "mi_arena_try_purge", "_mi_bitmap_unclaim_across", "_mi_bitmap_claim_across"],
+                 bounds="1 arena x 8 blocks, any range, regular and double free, any commit state, all delays")
+
+
+def arena_alloc_ob(prefix):
+    return ar_ob(prefix + ".arena_alloc_at", "h_arena_alloc_at", replace=FIND_REPL, cost=60,
+                 funcs=["mi_arena_try_alloc_at", "mi_arena_try_claim", "_mi_bitmap_unclaim_across", "_mi_bitmap_claim_across", "_mi_bitmap_is_claimed_across", "mi_arena_block_start", "mi_memid_create_arena"],
+                 bounds="1 arena x 8 blocks, any count, commit refused or granted")
+
+
+def c18():
+    return arena_expiry_ob("C18") + [arena_free_ob("C18"),
+            os_ob("C18.os_purge", "h_purge", funcs=["_mi_os_purge_ex", "mi_os_decommit_ex", "_mi_os_reset", "_mi_os_commit_ex", "mi_os_page_align_areax"], cost=20,
+                  bounds="any range, any delay value, decommit or reset mode")]
+
+
+PROPS["C18"] = dict(
+    obligations=c18,
+    bounds="arenas of 8 blocks (one bitmap field), 2 arenas for the expiry logic, symbolic clock (non-decreasing), purge_delay in [-1,1000], arena_purge_mult in [1,20]",
+    outside="segment-level (span) purge scheduling is decided under C13 segment lemmas when present; wall-clock behaviour of the real OS",
+    assumptions=ARENA_STUBS + OS_STUBS,
+    trusted=["arena_layer.c ghost bookkeeping (live / purged block masks)"],
+)
+
+
+def c15():
+    return [ar_ob("C15.suitable", "h_suitable", funcs=["mi_arena_id_is_suitable", "_mi_arena_memid_is_suitable"], cost=5, bounds="all id/request/exclusive combinations"),
+            ] + [ar_ob("C15.arena_specific.req%d" % r, "h_arena_specific", defines=["REQ=%d" % r], replace={"mi_arena_try_alloc_at": "stub_try_alloc_at"}, cost=100,
+                  funcs=["_mi_arena_alloc_aligned", "mi_arena_try_alloc", "mi_arena_try_alloc_at_id", "mi_arena_try_alloc_at", "mi_arena_id_is_suitable", "mi_arena_reserve"],
+                  bounds="2 arenas x 8 blocks (each exclusive or not), request id %d (0 = none, 3 = unknown), any size up to the arena, any alignment" % r) for r in (0, 1, 2, 3)] + [
+            ar_ob("C15.manage", "h_manage", replace={"_mi_arena_meta_zalloc": "stub_meta_zalloc"}, unwind=600, cost=60,
+                  funcs=["mi_manage_os_memory_ex", "mi_manage_os_memory_ex2", "mi_arena_add", "_mi_bitmap_claim"],
+                  bounds="any start offset inside a segment, any size up to 6 arena blocks")]
+
+
+PROPS["C15"] = dict(
+    obligations=c15,
+    bounds="2 arenas of 8 blocks; managed regions up to 6 blocks at any misalignment",
+    outside="span reuse and reclaim suitability tests in segment.c (segment lemmas); heap binding mi_heap_new_in_arena -> request id is read off the code (heap->arena_id passed through)",
+    assumptions=ARENA_STUBS,
+    trusted=["arena_layer.c"],
+)
